@@ -112,9 +112,24 @@ func rulePDF417Arith(c *Ctx) {
 	const RD = "C13-PDF-DIMENSIONS"
 	c.Doc(RD, "pdf417.calcDimensions tries every column count from minCols to maxCols inclusive, stops at the first column count whose row count drops below minRows and skips those above maxRows; the row count for c columns is calculateNumberOfRows(dataWords, eccWords, c)")
 	c.Floor(RD, 5)
-	if fn := c.theFunc(RD, "pdf417.calcDimensions"); fn != nil && len(fn.Params) == 2 {
-		n := NewNormer(c.P)
-		n.BindParams(fn, "dataWords", "eccWords")
+	if fn := c.theFunc(RD, "pdf417.calcDimensions"); fn != nil {
+		// analysed in its calling context (M data words, K check words), however the two counts are handed over
+		n, enc := pdfRoot(c)
+		var sites []DeepSite
+		if enc != nil {
+			sites = c.P.deepCallsTo(enc, fn)
+		}
+		switch {
+		case len(sites) == 1:
+			n.Ctx = append(append([]ssa.CallInstruction{}, sites[0].Path...), sites[0].Ins.(*ssa.Call))
+		case len(fn.Params) == 2:
+			n = NewNormer(c.P)
+			n.BindParams(fn, "M", "K")
+		default:
+			c.Undecided(RD, "pdf417.calcDimensions/context", fn.Pos(), "not called once from EncodeWithColor and not of the form (dataWords, eccWords)")
+			return
+		}
+		n.NoInline["pdf417.calculateNumberOfRows"] = true
 		var hdr *ssa.BasicBlock
 		var cphi *ssa.Phi
 		var cinit int64
@@ -129,17 +144,56 @@ func rulePDF417Arith(c *Ctx) {
 			n.Bind[cphi] = "c"
 			c.Check(RD, "pdf417.calcDimensions/first-column", cphi.Pos(), cinit == 2, "2 (minCols)", fmt.Sprint(cinit))
 			c.expectCond(RD, "pdf417.calcDimensions/while", cphi.Pos(), n.EdgeCond(hdr, hdr.Succs[0]), "c <= 30")
+			// the row count of the candidate: a call in the loop body whose value is the number of rows
+			// for c columns (calculateNumberOfRows directly, or through a local closure/helper)
 			var rcall *ssa.Call
-			for _, call := range callsTo(fn, c.P.Func("pdf417.calculateNumberOfRows")) {
-				if hdr.Dominates(call.Block()) && hdr.Succs[0].Dominates(call.Block()) {
+			crows := c.P.Func("pdf417.calculateNumberOfRows")
+			eachInstr(fn, func(b *ssa.BasicBlock, ins ssa.Instruction) {
+				call, ok := ins.(*ssa.Call)
+				if !ok || rcall != nil || !(hdr.Dominates(b) && hdr.Succs[0].Dominates(b)) {
+					return
+				}
+				cal := calleeOf(call)
+				if cal == nil {
+					return
+				}
+				if cal == crows {
+					rcall = call
+					return
+				}
+				// a wrapper: single-block function/closure returning calculateNumberOfRows(...)
+				if cal.Blocks != nil && len(cal.Blocks) == 1 && len(callsTo(cal, crows)) == 1 {
 					rcall = call
 				}
-			}
+			})
 			if rcall == nil {
 				c.Check(RD, "pdf417.calcDimensions/rows", fn.Pos(), false, "rows = calculateNumberOfRows(dataWords, eccWords, c)", "no call in the loop")
 			} else {
-				got := callSig(n, c.P, rcall)
-				c.Check(RD, "pdf417.calcDimensions/rows", rcall.Pos(), got == "calculateNumberOfRows(dataWords, eccWords, c)", "calculateNumberOfRows(dataWords, eccWords, c)", got)
+				// its value, followed through calculateNumberOfRows in this calling context: ceil((M+1+K)/c)
+				inner, innerFn, innerCtx := rcall, fn, n.Ctx
+				if cal := calleeOf(rcall); cal != crows {
+					inner, innerFn = callsTo(cal, crows)[0], cal
+					innerCtx = append(append([]ssa.CallInstruction{}, n.Ctx...), rcall)
+				}
+				savedCtx := n.Ctx
+				n.Ctx = innerCtx
+				delete(n.NoInline, "pdf417.calculateNumberOfRows")
+				cases := n.valueCases(innerFn, nil, inner, 0)
+				n.Ctx = savedCtx
+				assume := MustRefCond("(M+1+K) % c >= 0")
+				wantRows := map[string]string{MustRef("(M+1+K)/c + 1").String(): "(M+1+K) % c > 0", MustRef("(M+1+K)/c").String(): "(M+1+K) % c <= 0"}
+				seenRows := map[string]bool{}
+				for _, cs := range cases {
+					v := cs.val.String()
+					w, ok := wantRows[v]
+					if !ok {
+						c.Check(RD, "pdf417.calcDimensions/rows/"+v, rcall.Pos(), false, "rows for c columns = (M+1+K)/c rounded up", v+" when "+cs.cond.String())
+						continue
+					}
+					seenRows[v] = true
+					c.expectCondC(RD, "pdf417.calcDimensions/rows/"+v, rcall.Pos(), cAnd(assume, cs.cond), cAnd(assume, MustRefCond(w)))
+				}
+				c.Check(RD, "pdf417.calcDimensions/rows", rcall.Pos(), len(seenRows) == 2, "rows = calculateNumberOfRows(dataWords, eccWords, c)", fmt.Sprint(len(seenRows))+" of the two rounding cases")
 				n.Bind[rcall] = "r"
 				// break: leaves the loop; continue: goes to the latch without updating the choice
 				exit := hdr.Succs[1]
